@@ -240,9 +240,20 @@ CORPUS = ["1 + 2 * 3", "(1+2)*3", "8 / 4 / 2 + 1", "2 * (3 + 4) * 5", "10 - 4 - 
           "- 5 + 2", "(- 5 + 1) * 2"]
 
 
+def deep_cases():
+    """parentheses nested to ANY depth: 21, 30, 64, 100 and 200 levels, in four shapes"""
+    out = []
+    for d in (21, 22, 30, 64, 100, 200):
+        out.append(("(" * d + "1 + 2" + ")" * d + " * 2", 6.0))
+        out.append(("1 + (" * d + "1" + ")" * d, float(d + 1)))
+        out.append(("-(" * d + "3" + ")" * d, 3.0 if d % 2 == 0 else -3.0))
+        out.append(("x = " + "(2 * " * d + "1" + ")" * d + " / " + "(" * d + "2" + ")" * d, float(2 ** d) / 2.0))
+    return out
+
+
 def generate(rng, tier):
     n = 400 if tier == "quick" else 6000
-    cases = []
+    cases = [exec_case(t, kind="deep-nesting", expect=bits(v), classes=[]) for t, v in deep_cases()]
     for t in CORPUS:
         cases.append(exec_case(t, kind="corpus", expect=None, classes=[]))
     for t, v in CORPUS_V:
